@@ -202,12 +202,20 @@ class Ctx:
             raise RuntimeError('driver build failed:\n' + out[-4000:])
         return os.path.join(LEAN, '.lake', 'build', 'bin', 'driver')
 
-    def audit(self, expected):
+    def audit(self, expected, thorough_extra=None):
         """Build Props/<pid> and read `#print axioms` for every expected theorem.
+        `thorough_extra`: {module: [theorem names]} built and audited in the thorough tier only (complete-table
+        theorems that take minutes of kernel evaluation).
         Returns list of broken obligations (names)."""
         pid = self.pid
         broken = []
-        ok, out = self.lake(['AaVerif.Props.%s' % pid])
+        mods = ['AaVerif.Props.%s' % pid]
+        expected = list(expected)
+        if thorough_extra and self.tier == 'thorough':
+            for m, names in thorough_extra.items():
+                mods.append(m)
+                expected += names
+        ok, out = self.lake(mods)
         self.cov['obligations'] = len(expected)
         if not ok:
             # find which theorems failed: lean reports file:line errors; map to decl names
@@ -220,7 +228,7 @@ class Ctx:
             self.cov['broken'] += ['obligation:' + n for n in names]
             return broken
         auditf = os.path.join(LEAN, 'Audit', pid + '.lean')
-        src = 'import AaVerif.Props.%s\n' % pid + ''.join('#print axioms %s\n' % n for n in expected)
+        src = ''.join('import %s\n' % m for m in mods) + ''.join('#print axioms %s\n' % n for n in expected)
         with Lock(os.path.join(LEAN, '.verif.lock')):
             old = open(auditf).read() if os.path.exists(auditf) else None
             if old != src:
